@@ -174,3 +174,8 @@ func (vs *VerifSource) VerifC06EndByItself() {
 	vs.nextBlock <- &dataBlock{err: errors.New("verif: device lost")}
 	vs.RunDoneWait()
 }
+
+// VerifC06Lengths is the record length (samples, presamples) the server reports in its status.
+func (s *SourceControl) VerifC06Lengths() (nsamp, npre int) {
+	return s.status.Nsamples, s.status.Npresamp
+}
